@@ -714,9 +714,13 @@ func rootAlloc(v ssa.Value) *ssa.Alloc {
 }
 
 // localsEnv resolves source-level local variable names to current cell values.
-func (st *State) localsEnv() func(string) (Val, bool) {
+func (st *State) localsEnv(scope func() *ssa.BasicBlock) func(string) (Val, bool) {
 	fr := st.fr
 	return func(name string) (Val, bool) {
+		var sb *ssa.BasicBlock
+		if scope != nil {
+			sb = scope()
+		}
 		// among the live variables of that name, the most recently created one
 		// (innermost scope / current loop) wins
 		var best *ssa.Alloc
@@ -725,6 +729,9 @@ func (st *State) localsEnv() func(string) (Val, bool) {
 			a, ok := v.(*ssa.Alloc)
 			if !ok || a.Comment != name || rv.P == nil {
 				continue
+			}
+			if sb != nil && a.Block() != nil && a.Block().Parent() == sb.Parent() && !a.Block().Dominates(sb) {
+				continue // declared in a block that does not dominate the clause's program point: not in scope
 			}
 			id := 0
 			if rv.P.Kind == pkCell {
@@ -782,7 +789,7 @@ func (st *State) specEnv(what string) *SpecEnv {
 			env.vars[fv.Name()] = st.loadQuiet(r.P, nil)
 		}
 	}
-	env.locals = st.localsEnv()
+	env.locals = st.localsEnv(func() *ssa.BasicBlock { return env.scope })
 	return env
 }
 
@@ -830,6 +837,7 @@ func (e *Engine) enterLoop(st *State, li *loopInfo, from *ssa.BasicBlock, k cont
 	if ls != nil {
 		for i, inv := range ls.Invariants {
 			env := st.specEnv("invariant")
+			env.scope = li.header
 			t, err := st.evalClause(env, inv)
 			name := fmt.Sprintf("%sinv-entry[loop %d]#%d", prefix, li.ordinal, i+1)
 			if err != nil {
@@ -874,6 +882,7 @@ func (e *Engine) enterLoop(st *State, li *loopInfo, from *ssa.BasicBlock, k cont
 	if ls != nil {
 		for _, inv := range ls.Invariants {
 			env := st.specEnv("invariant")
+			env.scope = li.header
 			t, err := st.evalClause(env, inv)
 			if err == nil {
 				st.assume(t)
@@ -883,6 +892,7 @@ func (e *Engine) enterLoop(st *State, li *loopInfo, from *ssa.BasicBlock, k cont
 	if ls != nil {
 		for _, g := range ls.IterGhosts {
 			env := st.specEnv("iteration ghost")
+			env.scope = li.header
 			func() {
 				defer func() {
 					if r := recover(); r != nil {
@@ -902,6 +912,7 @@ func (e *Engine) enterLoop(st *State, li *loopInfo, from *ssa.BasicBlock, k cont
 	// decreases: remember the measure at the loop head
 	if ls != nil && ls.Decreases != nil {
 		env := st.specEnv("decreases")
+		env.scope = li.header
 		func() {
 			defer func() {
 				if r := recover(); r != nil {
@@ -975,6 +986,7 @@ func (e *Engine) backEdge(st *State, li *loopInfo) {
 	prefix := fmt.Sprintf("%s.%s#", shortPkg(funcPkgPath(fn)), funcKey(fn))
 	for i, inv := range ls.Invariants {
 		env := st.specEnv("invariant")
+		env.scope = li.header
 		t, err := st.evalClause(env, inv)
 		name := fmt.Sprintf("%sinv-pres[loop %d]#%d", prefix, li.ordinal, i+1)
 		if err != nil {
@@ -996,6 +1008,7 @@ func (e *Engine) backEdge(st *State, li *loopInfo) {
 	if ls.Decreases != nil {
 		if m0, ok := st.ghost[fmt.Sprintf("$measure%d", li.ordinal)]; ok {
 			env := st.specEnv("decreases")
+			env.scope = li.header
 			name := fmt.Sprintf("%sdecreases[loop %d]", prefix, li.ordinal)
 			func() {
 				defer func() {
